@@ -1,5 +1,9 @@
 """C17 - match.extract_matching_loci: correspondence with coq/C17 (model + spec).
 
+An input is one call, or {'seq': [call, ...]}: calls made one after the other in one process on
+the same file paths.  Streams: random calls; calls through joblib workers (n_jobs 2-4, -1; half
+of them order-sensitive designs); boundary values; argument forms; sequences.
+
 An input describes a synthetic genome generatively (blocks with a G+C level, an N rate, a
 case), an optional piecewise-constant integer signal, the input loci and the call's
 parameters.  run_impl writes the FASTA / bigwig under /tmp and calls the real function (and
@@ -634,18 +638,21 @@ def gen_order_case(rng):
             'seed': rng.randint(0, 2 ** 31 - 1)}
 
 
-def vary_forms(rng, c):
-    """the same call through other accepted argument forms / types"""
-    c['loci_form'] = rng.choice(['df', 'bed', 'df_extra', 'df_extra'])
-    if c['chroms'] is None and rng.random() < 0.6:
+def vary_forms(rng, c, i):
+    """the same call through other accepted argument forms / types (cycled, so every form of every
+    argument occurs regularly whatever the seed)"""
+    c['loci_form'] = ['bed', 'df_extra', 'df'][i % 3]
+    if c['chroms'] is None and i % 2 == 0:
         n = len(c['genome'])
-        c['chroms'] = rng.sample(range(n), rng.randint(1, n))
+        c['chroms'] = rng.sample(range(n), rng.randint(max(1, n - 1), n))
     if c['chroms'] is not None:
-        c['chroms_form'] = rng.choice(['list', 'tuple', 'ndarray'])
-    c['seed_form'] = rng.choice(['int', 'np_int64', 'RandomState'])
-    c['np_types'] = rng.random() < 0.5
-    c['maxn_int'] = rng.random() < 0.5
-    c['verbose'] = rng.random() < 0.35
+        c['chroms_form'] = ['tuple', 'ndarray', 'list'][(i // 2) % 3]
+    c['seed_form'] = ['np_int64', 'RandomState', 'int', 'np_int64'][i % 4]
+    c['np_types'] = i % 5 in (0, 1)
+    c['maxn_int'] = i % 7 == 0
+    if c['maxn_int']:
+        c['max_n'] = [0, 1]
+    c['verbose'] = i % 3 == 1
     return c
 
 
@@ -724,7 +731,7 @@ STEP_KINDS = ['in_window', 'out_window', 'max_n', 'bw', 'bigwig', 'beta', 'chrom
               'loci', 'loci_form', 'genome', 'np_types', 'n_jobs']
 
 
-def gen_sequence(rng):
+def gen_sequence(rng, i):
     """calls made one after the other in one process on the same file paths, one thing changed per
     step (stale caches / module state keyed on an incomplete key would show)"""
     base = gen_case(rng, False, force_signal=True, max_tiles=rng.choice([16, 24, 40]), nloci=rng.choice([5, 8, 12, 20, 30]))
@@ -732,10 +739,13 @@ def gen_sequence(rng):
         base['out_window'] = base['in_window']
     steps = [base]
     what = []
-    for _ in range(rng.randint(2, 3)):
+    kinds = STEP_KINDS[:-1]               # cycled, so every kind of step occurs regularly
+    for j in range(3):
         c = json.loads(json.dumps(steps[-1]))
         w = c['in_window']
-        kind = rng.choice(STEP_KINDS)
+        kind = kinds[(3 * i + j) % len(kinds)]
+        if j == 2 and i % 12 == 5:
+            kind = 'n_jobs'
         if kind == 'in_window':
             c['in_window'] = rng.choice([x for x in (50, 60, 64, 75, 100, 128) if x != w])
             c['out_window'] = min(c['out_window'], c['in_window'])
@@ -764,8 +774,8 @@ def gen_sequence(rng):
         elif kind == 'loci_form':
             c['loci_form'] = rng.choice([x for x in ('df', 'bed', 'df_extra') if x != c.get('loci_form', 'df')])
         elif kind == 'genome':
-            gi = rng.randrange(len(c['genome']))
-            c['genome'][gi]['seed'] += 1          # other content, same path, same length
+            for g in c['genome']:
+                g['seed'] += 1                    # other content, same path, same lengths
         elif kind == 'np_types':
             c['np_types'] = not c.get('np_types', False)
         elif kind == 'n_jobs':
@@ -800,10 +810,10 @@ def generate(tier, rng):
         c['stream'] = 'boundary%d' % (i % 9)
         yield c
     for i in range(500 if big else 60):
-        c = vary_forms(rng, gen_case(rng, False, max_tiles=rng.choice([20, 40, 80]), nloci=rng.choice([5, 8, 12, 20, 30, 60])))
+        c = vary_forms(rng, gen_case(rng, False, max_tiles=rng.choice([60, 100, 150]), nloci=rng.choice([5, 8, 12, 20, 30])), i)
         c['stream'] = 'forms'
         yield c
-    seqs = [gen_sequence(rng) for _ in range(250 if big else 36)]
+    seqs = [gen_sequence(rng, i) for i in range(250 if big else 36)]
     seqs.sort(key=lambda s: 0 if 'n_jobs' not in s['what'] else 1)     # worker-pool sequences last
     for s in seqs:
         yield s
